@@ -1222,10 +1222,23 @@ M("C05", "return-order-swapped", ANIMF,
             animals_killed_for_meat_small_nonchicken,
             animals_killed_for_meat_large,
         )''', "C05.CLASS")
-M("C05", "priority-chain-predicate-changed", ANIMF,
+M("C05", "R-priority-chain-redundant-conjunct-dropped", ANIMF,
   '''            elif animal.animal_size == "medium" and animal.animal_type != "pig":
                 kcals_per_head_meat = kcals_per_head_meat_dict[''', '''            elif animal.animal_size == "medium":
-                kcals_per_head_meat = kcals_per_head_meat_dict[''', "C05.CLASS")
+                kcals_per_head_meat = kcals_per_head_meat_dict[''', None)
+M("C05", "priority-chain-pig-test-after-size", ANIMF,
+  '''            elif animal.animal_type == "pig":
+                kcals_per_head_meat = kcals_per_head_meat_dict["KCALS_PER_PIG"]
+            elif animal.animal_size == "small" and animal.animal_type != "chicken":
+                kcals_per_head_meat = kcals_per_head_meat_dict["KCALS_PER_SMALL_ANIMAL"]
+            elif animal.animal_size == "medium" and animal.animal_type != "pig":''',
+  '''            elif animal.animal_size == "small" and animal.animal_type != "chicken":
+                kcals_per_head_meat = kcals_per_head_meat_dict["KCALS_PER_SMALL_ANIMAL"]
+            elif animal.animal_size == "medium":
+                kcals_per_head_meat = kcals_per_head_meat_dict["KCALS_PER_MEDIUM_ANIMAL"]
+            elif animal.animal_type == "pig":
+                kcals_per_head_meat = kcals_per_head_meat_dict["KCALS_PER_PIG"]
+            elif animal.animal_size == "medium" and animal.animal_type != "pig":''', "C05.CLASS")
 M("C05", "running-total-of-other-series", PARF,
   '''        time_consts["max_consumed_culled_kcals_each_month"] = (
             each_month_meat_slaughtered.get_running_total_nutrients_sum().kcals
